@@ -449,7 +449,54 @@ func (o *Observer) checkPool(ctx string, bst *model.BlockState) {
 	for _, id := range ids {
 		d := byID[id]
 		if h, ok := bst.Txs[d.Tx.ID]; ok {
-			r.Violate("confirmed-tx-in-pool", "", "after %s (reorgs %d): pooled transaction is confirmed at height %d of the main chain (tip %s)", ctx, o.reorgs, h, w.name(bst.Hash))
+			// where it is confirmed, and whether it spends an output created in the same block
+			where, chained := "", false
+			for s := bst; s != nil; s = s.Parent {
+				if s.Height != h || s.Block == nil {
+					continue
+				}
+				made := map[bc.Hash]bool{}
+				for i, tx := range s.Block.Transactions {
+					if tx.ID == d.Tx.ID {
+						where = fmt.Sprintf("%s tx %d of %d", w.name(s.Hash), i, len(s.Block.Transactions)-1)
+						for _, sp := range tx.SpentOutputIDs {
+							if made[sp] {
+								chained = true
+							}
+						}
+					}
+					for _, rid := range tx.ResultIds {
+						made[*rid] = true
+					}
+				}
+			}
+			// How could it be admitted? An input that the chain state does not offer must have been supplied
+			// by a pooled transaction. If that supplier is itself not on the main chain (a stale transaction
+			// that conflicts with a confirmed one and happens to create an output with the same id - the id
+			// of an output does not depend on the other outputs of its transaction), the confirmed transaction
+			// was (re)submitted after its confirmation and accepted as the child of the stale one.
+			class := ""
+			for _, sp := range d.Tx.SpentOutputIDs {
+				sp := sp
+				if e, err := n.Store.GetUtxo(&sp); err == nil && !e.Spent {
+					continue
+				}
+				for _, oid := range ids {
+					od := byID[oid]
+					if od.Tx.ID == d.Tx.ID {
+						continue
+					}
+					for _, rid := range od.Tx.ResultIds {
+						if *rid == sp {
+							if _, conf := bst.Txs[od.Tx.ID]; !conf {
+								class = "resubmitted-as-child-of-stale-conflicting-pool-tx"
+							}
+						}
+					}
+				}
+			}
+			r.Violate("confirmed-tx-in-pool", class, "after %s (reorgs %d): pooled transaction is confirmed at height %d of the main chain (tip %s; %s; spends an output created in the same block: %v; pool size %d) %s",
+				ctx, o.reorgs, h, w.name(bst.Hash), where, chained, len(ids), class)
 			return
 		}
 	}
